@@ -218,6 +218,11 @@ def run_case(case, rec, mon=None):
     if kind == "grid":
         name, params = case["cls"], case["params"]
         sc = _build(name, params, [None, "from_alias", None, "factory_dict", None, "factory_str"][case["idx"] % 6], mon)
+        if case["idx"] % 6 == 4:
+            from ..common import copied, COPY_WAYS
+
+            sc = copied(sc, COPY_WAYS[(case["idx"] // 6) % 3])  # the scale as a copied / pickled bank carries it
+            rec.count("scales_used_through_a_copy")
         fwd, inv = R.ref_pair(name, params)
         fs = _probes(case)
         use_np = case.get("np_scalar", False)
